@@ -47,7 +47,8 @@ def gen(rng, tier, idx):
     n_cols = rng.choice([2, 3, 5, 8])
     f = {'seed': rng.randrange(2 ** 31), 'n_rows': n_rows, 'n_cols': n_cols,
          'values': rng.choice(['int_as_float', 'non_integer', 'negative', 'boundary_255', 'boundary_65535',
-                               'boundary_int32', 'already_int', 'half_values']),
+                               'boundary_int32', 'already_int', 'half_values', 'neg_half_min', 'boundary_neg_128',
+                               'boundary_neg_32768', 'boundary_127', 'boundary_neg_int32']),
          'encoding': rng.choice(['dense', 'csr', 'csc']), 'layer': rng.choice([None, None, 'raw_counts']),
          'h5_chunks': rng.choice([None, [1, 1], [3, 2], [1000, 1000]]),
          'genes': rng.choice(['ensembl', 'ensembl_versioned', 'symbols', 'mixed', 'mixed', 'collision',
@@ -81,6 +82,15 @@ def make_file(f):
         V[0, 1] = -3.5
     elif kind == 'half_values':
         V = r.integers(0, 300, (n, c)) + 0.5
+    elif kind in ('neg_half_min', 'boundary_neg_128', 'boundary_neg_32768', 'boundary_127', 'boundary_neg_int32'):
+        # ties exactly at the edge of an integer type, on the negative side as well
+        V = r.random((n, c)) * 90
+        mask[0, 0] = True
+        V[0, 0] = {'neg_half_min': -0.5, 'boundary_neg_128': -128.5, 'boundary_neg_32768': -32768.5,
+                   'boundary_127': 127.5, 'boundary_neg_int32': -2147483648.5}[kind]
+        if kind == 'boundary_127' and c > 1:
+            mask[0, 1] = True
+            V[0, 1] = -7.25
     else:
         V = r.integers(0, 70000, (n, c)).astype(float)
     V = np.where(mask, V, 0.0)
